@@ -131,14 +131,14 @@ static void do_enc(char *p)
 {
   struct jpeg_compress_struct c; struct jpeg_error_mgr e;
   unsigned char *out = NULL; unsigned long outsz = 0;
-  int prec, cs, w, h, nc, hs[10], vs[10], q, fb, opt, ri, rows, mode, script, kind, psv, pt, tmix, qmix, i, x, y;
+  int prec, cs, w, h, nc, hs[10], vs[10], q, fb, opt, ri, rows, mode, script, kind, psv, pt, tmix, qmix, icc, i, x, y;
   long seed; void *img = NULL; static jpeg_scan_info scans[10];
   prec = strtol(p, &p, 10); cs = strtol(p, &p, 10); w = strtol(p, &p, 10); h = strtol(p, &p, 10);
   nc = strtol(p, &p, 10);
   for (i = 0; i < nc && i < 10; i++) { hs[i] = strtol(p, &p, 10); vs[i] = strtol(p, &p, 10); }
   q = strtol(p, &p, 10); fb = strtol(p, &p, 10); opt = strtol(p, &p, 10); ri = strtol(p, &p, 10);
   rows = strtol(p, &p, 10); mode = strtol(p, &p, 10); script = strtol(p, &p, 10); seed = strtol(p, &p, 10);
-  kind = strtol(p, &p, 10); psv = strtol(p, &p, 10); pt = strtol(p, &p, 10); tmix = strtol(p, &p, 10); qmix = strtol(p, &p, 10);
+  kind = strtol(p, &p, 10); psv = strtol(p, &p, 10); pt = strtol(p, &p, 10); tmix = strtol(p, &p, 10); qmix = strtol(p, &p, 10); icc = strtol(p, &p, 10);
   rs = (unsigned long long)seed * 2654435761ULL + 12345;
   c.err = jpeg_std_error(&e); e.error_exit = my_exit; e.emit_message = my_emit;
   jpeg_create_compress(&c);
@@ -200,6 +200,18 @@ static void do_enc(char *p)
       }
       jpeg_start_compress(&c, TRUE);
       if (kind == 2) jpeg_write_marker(&c, JPEG_COM, (const JOCTET *)"verif\xff\x00z", 8);
+      if (icc > 0) {             /* APP2 chain: exercises maximal segment lengths */
+        JOCTET *prof = malloc(icc); int k;
+        for (k = 0; k < icc; k++) prof[k] = (JOCTET)(k % 7 == 0 ? 0xFF : rnd());
+        jpeg_write_icc_profile(&c, prof, (unsigned int)icc);
+        free(prof);
+      }
+      if (icc < 0) {             /* COM of the given size (up to the 65533 byte maximum) */
+        JOCTET *com = malloc(-icc); int k;
+        for (k = 0; k < -icc; k++) com[k] = (JOCTET)(k % 5 == 0 ? 0xFF : rnd());
+        jpeg_write_marker(&c, JPEG_COM, com, (unsigned int)(-icc));
+        free(com);
+      }
       for (y = 0; y < h; y++) {
         if (prec <= 8) { JSAMPROW r = (JSAMPLE *)img + (size_t)y * n; jpeg_write_scanlines(&c, &r, 1); }
         else if (prec <= 12) { J12SAMPROW r = (J12SAMPLE *)img + (size_t)y * n; jpeg12_write_scanlines(&c, &r, 1); }
